@@ -575,7 +575,8 @@ class Check:
         if self.tier == 'thorough' and rc == 0 and os.environ.get('VERIF_COQCHK', '1') == '1':
             # independent re-check of the compiled cone with coqchk (-o lists the axioms it relies on)
             t2 = time.time()
-            rc3, out3 = sh('coqchk -o -silent -Q . V V.Props.%s 2>&1 | tail -40' % pid, cwd=COQ, timeout=2400)
+            rc3, out3 = sh('coqchk -o -silent -Q . V V.Props.%s 2>&1' % pid, cwd=COQ, timeout=2400)
+            out3 = out3[-4000:]
             m = re.search(r'\* Axioms:(.*?)\n\s*\n', out3 + '\n\n', re.S)
             ax = ' '.join(m.group(1).split()) if m else None
             self.cov['coqchk'] = {'exit': rc3, 'axioms': ax, 'wall_s': round(time.time() - t2, 1)}
